@@ -8,3 +8,4 @@ LEVEL = "proof"
 def run(chk, replay=None):
     proccheck.run(chk, "PropC11", {'exit': 7, 'mixed': 2, 'all_ok': 1}, 260, 4000, [501, 502, 503], replay=replay)
     exitcheck.run_stage(chk)
+    exitcheck.worker_stage(chk)
